@@ -298,20 +298,8 @@ impl<'a> Ctx<'a> {
 					return;
 				}
 			};
-			let want_code = match e.k.as_str() {
-				"split" => {
-					if e.f == 1 {
-						e.p as u8
-					} else {
-						0x10
-					}
-				}
-				"unk" => e.x as u8,
-				_ => self.built.ev_bufs[k][0],
-			};
-			if code != want_code {
-				out.push(viol("inc_event", &cls, "mismatch", format!("event {} returned code {:#x}, expected {:#x}", k + 1, code, want_code)));
-			}
+			// (the code returned by parse_event is not part of any listed property and is not compared)
+			let _ = code;
 			if st.bytes_read() != consumed(r.position()) {
 				out.push(viol("inc_bytes_read", &cls, "mismatch", format!("after event {}: {} vs {}", k + 1, st.bytes_read(), consumed(r.position()))));
 				return;
